@@ -250,4 +250,22 @@ PROPS = {
             rap("writer", "^TestC18Writer$", 120, 1200, 4, 16),
         ],
     },
+    "C03": {
+        "level": "exploration",
+        "level_text": "generated hostile inputs (random, mutated well-formed streams, CRC-fixed-up section bodies that reach the table and descriptor "
+                      "parsers, hostile PES headers) over the whole configuration matrix, a truncation sweep at every offset, and coverage-guided "
+                      "native fuzzing in the thorough tier; the oracle is panic-freedom, per-call progress and bounded termination",
+        "level_note": "liveness is reduced to a bounded-steps safety check (<= len(input)+64 calls); progress per call cannot be observed below a "
+                      "bufio.Reader; native fuzz campaigns cannot be seeded and a campaign that finds nothing is only that",
+        "technique": "rapid property test over structured-then-mutated inputs x configurations, exhaustive truncation sweep, native go fuzzing (thorough)",
+        "rule": "rapid-generated inputs x configurations; non-trivial = input >= 2 packets with at least one call returning an error and one returning data; "
+                "truncation: every case; distinct by input bytes + configuration; native fuzz executions are reported separately and not counted as distinct",
+        "assumptions": ["packet sizes < 188 and bufio.Readers smaller than the 193-byte detection window are outside the property"],
+        "units": [
+            rap("inputs", "^TestC03Inputs$", 8000, 100000, 4, 16),
+            rap("truncation", "^TestC03Truncation$", 20, 150, 6, 16),
+            {"name": "fuzz_bytes", "fuzz": "FuzzC03", "thorough": {"fuzztime": "150s", "timeout": 600}},
+            {"name": "fuzz_sections", "fuzz": "FuzzC03Sections", "thorough": {"fuzztime": "120s", "timeout": 600}},
+        ],
+    },
 }
